@@ -6,9 +6,11 @@ proof:   coq/Emit.v (generic, about the ABSTRACT emission pipeline: emit_id_inva
          obligations `sites_covered` / `plugins_owned` computed on the site table that lib/x_emit.py extracts from the current
          plugins.
 tie:     x_emit (syntactic classification of every set / random id / directory listing by its consumer) + the history
-         stream on the REAL plugins: {PYTHONHASHSEED 1, 2, random} x {fresh directory, re-run into the same directory, run after
-         a different (edited) model, run after hand-placed stale files matching the plugin's owned pattern}, byte comparison of
-         whole output trees, plus a scan of the output for uuid-shaped strings.
+         stream on the REAL plugins: model lists {committed lsp.json, [lsp.json, extension.json] with keyword-named properties and
+         digit-named messages; for testdata also a small standalone model and its extension} x {PYTHONHASHSEED 1, 2, 3, random} x
+         {fresh directory, re-run into the same directory, run after the other model list in the same directory, run after
+         hand-placed stale files matching the plugin's owned pattern}, byte comparison of whole output trees, plus a scan of
+         the output for uuid-shaped strings.
 partial: that each Python expression is an instance of its abstract class is not proved.
 """
 import concurrent.futures as cf
@@ -22,17 +24,21 @@ import subprocess
 import vcommon as V
 
 LEVEL = "proof"      # evidence level category; the claim itself is labelled PARTIAL in MANIFEST level text
-RULE = ("history stream: per plugin (quick: python, rust, dotnet; thorough: + testdata) every combination of PYTHONHASHSEED in {1, 2, random} "
-        "and run history in {fresh directory, re-run into the same directory, run after an edited model with extra structure/enumeration/"
-        "notification, run after hand-placed stale files matching the owned pattern}; the whole output tree (path -> sha256) of every "
-        "combination must equal the plugin's reference tree; distinct = distinct (plugin, seed, history)")
+RULE = ("history stream: per plugin and model list — python/rust/dotnet on the committed lsp.json and on the EXTENDED list [lsp.json, extension.json] "
+        "(extension: 5 structures with Python-keyword properties, a request/notification whose names contain digits, an enumeration); "
+        "testdata on a small standalone model and its digit-named extension (quick) and on the full lists (thorough) — every combination of "
+        "PYTHONHASHSEED in {1, 2, 3, random} and run history in {fresh directory, re-run into the same directory, run after the OTHER model "
+        "list in the same directory, run after hand-placed stale files matching the owned pattern}; the whole output tree (path -> sha256) "
+        "must equal the reference tree of that (plugin, model list); distinct = distinct (plugin, model list, seed, history)")
 SEEDS = ["1", "2", "random"]
 HISTS = ["fresh", "rerun", "after-other-model", "after-stale-files"]
+OTHER = {"committed": "extended", "extended": "committed", "small": "small-ext", "small-ext": "small"}
 UUID_RE = re.compile(rb"[0-9a-f]{8}-[0-9a-f]{4}-[1-5][0-9a-f]{3}-[89ab][0-9a-f]{3}-[0-9a-f]{12}")
+Z64 = "0" * 64
 STALE = {"python": [("lsprotocol/types.py", "# stale content from an earlier model\nclass Stale: ...\n")],
          "rust": [("lsprotocol/src/lib.rs", "// stale\npub struct Stale;\n")],
-         "dotnet": [("lsprotocol/Stale.cs", "// stale\nclass Stale {}\n"), ("lsprotocol/ZzzOld.cs", "// stale\n")],
-         "testdata": [("StaleRequest-True-0000000000000000000000000000000000000000000000000000000000000000.json", "{}\n")]}
+         "dotnet": [("lsprotocol/Stale.cs", "// stale\nclass Stale {}\n"), ("lsprotocol/ZzzOld2.cs", "// stale\n")],
+         "testdata": [("StaleRequest-True-%s.json" % Z64, "{}\n"), ("Stale2ThingNotification-False-%s.json" % Z64, "{}\n")]}
 
 
 def tree(d):
@@ -48,16 +54,38 @@ def tree(d):
     return out, leaks
 
 
-def edited_model(dst):
-    m = json.load(open(os.path.join(V.REPO, "generator", "lsp.json")))
-    m["structures"].append({"name": "ZzzStaleProbe", "properties": [{"name": "probe", "type": {"kind": "base", "name": "string"}},
-                                                                     {"name": "kind", "type": {"kind": "reference", "name": "ZzzStaleKind"}, "optional": True}],
-                            "documentation": "Only present in the edited model."})
-    m["enumerations"].append({"name": "ZzzStaleKind", "type": {"kind": "base", "name": "uinteger"},
-                              "values": [{"name": "One", "value": 1}, {"name": "Two", "value": 2}]})
-    m["notifications"].append({"method": "zzz/staleProbe", "messageDirection": "both", "params": {"kind": "reference", "name": "ZzzStaleProbe"},
-                               "typeName": "ZzzStaleProbeNotification"})
-    json.dump(m, open(dst, "w"))
+def _ref(n):
+    return {"kind": "reference", "name": n}
+
+
+def _base(n):
+    return {"kind": "base", "name": n}
+
+
+def write_models(base):
+    """model files used by the stream -> {model list name: [paths] or None for the packaged default}"""
+    kw = ["from", "import", "class", "global", "lambda"]
+    structs = [{"name": "ZzKeyword%sHolder" % k.capitalize(), "documentation": "Extension structure with a Python keyword property.",
+                "properties": [{"name": k, "type": _base("string")}, {"name": "other", "type": _base("integer"), "optional": True}]} for k in kw]
+    structs += [{"name": "ZzUtf8StatusParams", "properties": [{"name": "uri", "type": _base("DocumentUri")}, {"name": "level", "type": _ref("ZzStatusLevel"), "optional": True}]},
+                {"name": "ZzUtf8Status", "properties": [{"name": "ok", "type": _base("boolean")}, {"name": "holder", "type": _ref("ZzKeywordFromHolder"), "optional": True}]},
+                {"name": "ZzV2ThingParams", "properties": [{"name": "things", "type": {"kind": "array", "element": _base("string")}}]}]
+    enums = [{"name": "ZzStatusLevel", "type": _base("uinteger"), "values": [{"name": "Low", "value": 1}, {"name": "High", "value": 2}]}]
+    result = {"kind": "or", "items": [_ref("ZzUtf8Status"), _base("null")]}
+    digit_req = {"method": "workspace/utf8Status", "typeName": "WorkspaceUtf8StatusRequest", "messageDirection": "clientToServer", "params": _ref("ZzUtf8StatusParams"), "result": result}
+    digit_not = {"method": "zz/v2Thing", "typeName": "ZzV2ThingNotification", "messageDirection": "both", "params": _ref("ZzV2ThingParams")}
+    plain_req = {"method": "zz/plainStatus", "typeName": "ZzPlainStatusRequest", "messageDirection": "clientToServer", "params": _ref("ZzUtf8StatusParams"), "result": result}
+    meta = {"version": "3.17.0"}
+    ext = {"metaData": meta, "requests": [digit_req], "notifications": [digit_not], "structures": structs, "enumerations": enums, "typeAliases": []}
+    packaged = os.path.join(V.REPO, "generator", "lsp.json")
+    aliases = [a for a in json.load(open(packaged))["typeAliases"] if a["name"] in ("LSPAny", "LSPObject", "LSPArray")]
+    small = {"metaData": meta, "requests": [plain_req], "notifications": [], "structures": structs, "enumerations": enums, "typeAliases": aliases}
+    small_ext = dict(small, requests=[plain_req, digit_req], notifications=[digit_not])
+    paths = {}
+    for name, doc in (("extension", ext), ("small", small), ("small-ext", small_ext)):
+        paths[name] = os.path.join(base, name + ".json")
+        json.dump(doc, open(paths[name], "w"))
+    return {"committed": None, "extended": [packaged, paths["extension"]], "small": [paths["small"]], "small-ext": [paths["small-ext"]]}
 
 
 def gen(plugin, seed, out, model=None):
@@ -65,40 +93,54 @@ def gen(plugin, seed, out, model=None):
     env["PYTHONPATH"] = V.REPO
     cmd = [V.PY, "-B", "-m", "generator", "--plugin", plugin, "--output-dir", out, "--test-dir", out + "-tests"]
     if model:
-        cmd += ["--model", model]
+        cmd += ["--model"] + list(model)
     p = subprocess.run(cmd, cwd=V.REPO, env=env, capture_output=True, text=True, timeout=900)
     return p.returncode, (p.stdout + p.stderr)[-1500:]
 
 
-def combo(plugin, seed, hist, base, other_model):
-    """run one (plugin, seed, history) in its own directory; returns (tree, leaks, error)"""
-    d = os.path.join(base, "%s-%s-%s" % (plugin, seed, hist))
+def combo(plugin, mlist, seed, hist, base, models):
+    """run one (plugin, model list, seed, history) in its own directory; returns (tree, leaks, error, tree after the first of two runs)"""
+    d = os.path.join(base, "%s-%s-%s-%s" % (plugin, mlist, seed, hist))
     os.makedirs(d, exist_ok=True)
+    first = None
     try:
         if hist == "rerun":
-            rc, log = gen(plugin, seed, d)
+            rc, log = gen(plugin, seed, d, models[mlist])
             if rc:
-                return None, [], "first run failed: " + log
+                return None, [], "first run failed: " + log, None
         elif hist == "after-other-model":
-            rc, log = gen(plugin, seed, d, other_model)
+            rc, log = gen(plugin, seed, d, models[OTHER[mlist]])
             if rc:
-                return None, [], "run on the edited model failed: " + log
+                return None, [], "run on the other model list (%s) failed: %s" % (OTHER[mlist], log), None
             first, _ = tree(d)
         elif hist == "after-stale-files":
             for rel, txt in STALE[plugin]:
                 p = os.path.join(d, rel)
                 os.makedirs(os.path.dirname(p), exist_ok=True)
                 open(p, "w").write(txt)
-        rc, log = gen(plugin, seed, d)
+        rc, log = gen(plugin, seed, d, models[mlist])
         if rc:
-            return None, [], "run failed: " + log
+            return None, [], "run failed: " + log, None
         t, leaks = tree(d)
-        if hist == "after-other-model" and first == t:
-            return t, leaks, "the edited model produced the same tree as the packaged model: this history tests nothing"
-        return t, leaks, None
+        return t, leaks, None, first
     finally:
         shutil.rmtree(d, ignore_errors=True)
         shutil.rmtree(d + "-tests", ignore_errors=True)
+
+
+def jobs_for(tier, extra_seeds=()):
+    """(plugin, model list, seed, history) combinations of a tier"""
+    jobs = []
+    seeds = SEEDS + list(extra_seeds)
+    for p in ("python", "rust", "dotnet"):
+        jobs += [(p, "committed", s, h) for s in seeds for h in HISTS]
+        jobs += [(p, "extended", s, h) for s in ["1", "2", "3", "random"] + list(extra_seeds) for h in ("fresh", "after-other-model")]
+    jobs += [("testdata", "small", s, h) for s in seeds for h in HISTS]
+    jobs += [("testdata", "small-ext", s, "fresh") for s in ("1", "2", "3")]
+    if tier == "thorough":
+        jobs += [("testdata", "committed", s, h) for s in SEEDS for h in HISTS]
+        jobs += [("testdata", "extended", s, "fresh") for s in ("1", "2")]
+    return jobs
 
 
 def diff_trees(a, b):
@@ -106,36 +148,39 @@ def diff_trees(a, b):
             "content_differs": sorted(k for k in a if k in b and a[k] != b[k])[:10]}
 
 
-def run_stream(plugins, seeds, hists, workers=10):
-    """-> (results {(plugin, seed, hist): (tree, leaks, err)}, reference trees)"""
+def run_stream(jobs, workers=10):
+    """-> {(plugin, model list, seed, hist): (tree, leaks, err)}"""
     res = {}
     with V.scratch("verif-c16-") as base:
-        other = os.path.join(base, "edited-model.json")
-        edited_model(other)
-        jobs = [(p, s, h) for p in plugins for s in seeds for h in hists]
+        models = write_models(base)
+        # heavy jobs first
+        order = sorted(jobs, key=lambda j: (-(j[0] == "testdata" and j[1] in ("committed", "extended")), -(j[0] == "dotnet"), j))
         with cf.ThreadPoolExecutor(workers) as ex:
-            futs = {j: ex.submit(combo, j[0], j[1], j[2], base, other) for j in jobs}
-            for j, f in futs.items():
-                res[j] = f.result()
+            futs = {j: ex.submit(combo, j[0], j[1], j[2], j[3], base, models) for j in order}
+            for j in jobs:
+                res[j] = futs[j].result()
     return res
 
 
 def judge(res):
-    """first failing combination per plugin against the plugin's reference (seed 1, fresh)"""
+    """failing combinations against the reference tree of their (plugin, model list): seed 1, fresh directory"""
     bad = []
-    by_plugin = {}
-    for (p, s, h), r in res.items():
-        by_plugin.setdefault(p, []).append(((s, h), r))
-    for p, rows in by_plugin.items():
+    groups = {}
+    for (p, m, s, h), r in res.items():
+        groups.setdefault((p, m), []).append(((s, h), r))
+    for (p, m), rows in groups.items():
         ref = next((r[0] for (s, h), r in rows if r[0] is not None and (s, h) == ("1", "fresh")), None) or \
             next((r[0] for (s, h), r in rows if r[0] is not None), None)
-        for (s, h), (t, leaks, err) in rows:
+        for (s, h), (t, leaks, err, first) in rows:
+            here = {"plugin": p, "models": m, "seed": s, "history": h}
             if err:
-                bad.append({"plugin": p, "seed": s, "history": h, "what": "generator failed", "detail": err[-600:]})
+                bad.append(dict(here, what="generator failed", detail=err[-600:]))
+            elif h == "after-other-model" and first == ref:
+                bad.append(dict(here, what="vacuous history: the other model list produces the reference tree, nothing is tested"))
             elif t != ref:
-                bad.append({"plugin": p, "seed": s, "history": h, "what": "output tree differs from the reference run", "diff": diff_trees(ref, t)})
+                bad.append(dict(here, what="output tree differs from the reference run (seed 1, fresh directory, same model list)", diff=diff_trees(ref, t)))
             elif leaks:
-                bad.append({"plugin": p, "seed": s, "history": h, "what": "uuid-shaped string in the output", "files": leaks[:5]})
+                bad.append(dict(here, what="uuid-shaped string in the output", files=leaks[:5]))
     return bad
 
 
@@ -189,29 +234,28 @@ def run(chk):
         chk.extra["site_classes"] = {k: sum(1 for s in info["sites"] if s["class"] == k) for k in sorted({s["class"] for s in info["sites"]})}
         chk.extra["plugins"] = [{k: pl[k] for k in ("name", "cleanup_first", "fixed_names", "writes_owned", "patterns", "written")} for pl in info["plugins"]]
 
-    plugins = ["python", "rust", "dotnet"] + (["testdata"] if chk.tier == "thorough" else [])
-    seeds = list(SEEDS)
-    if broken:
-        seeds += ["3", "4", "5", "6"]          # an obligation broke: look harder for a real difference
-    res = run_stream(plugins, seeds, HISTS, workers=10 if chk.tier == "quick" else 6)
-    for (p_, s, h), (t, leaks, err) in res.items():
-        chk.count((p_, s, h), nontrivial=t is not None)
+    jobs = jobs_for(chk.tier, ["4", "5"] if broken else [])      # an obligation broke: look harder for a real difference
+    res = run_stream(jobs, workers=10 if chk.tier == "quick" else 6)
+    for j, (t, leaks, err, _first) in res.items():
+        chk.count(j, nontrivial=t is not None)
     bad = judge(res)
     ntrees = sum(1 for r in res.values() if r[0] is not None)
     chk.obligation("history-stream:real-plugins-byte-identical", not bad,
-                   "%d runs-with-history over %s x seeds %s x %s: %d differing" % (ntrees, plugins, seeds, HISTS, len(bad)))
-    for (p_, s, h) in [("dotnet", "2", "after-stale-files"), ("python", "random", "rerun")]:
-        if (p_, s, h) in res and res[(p_, s, h)][0] is not None:
-            chk.sample({"plugin": p_, "seed": s, "history": h, "files": len(res[(p_, s, h)][0]),
-                        "tree_digest": hashlib.sha1(json.dumps(res[(p_, s, h)][0], sort_keys=True).encode()).hexdigest()[:12]})
+                   "%d runs-with-history (%s), %d differing" % (ntrees, ", ".join("%s/%s: %d" % (p, m, sum(1 for j in jobs if j[:2] == (p, m)))
+                                                                                 for p, m in sorted({j[:2] for j in jobs})), len(bad)))
+    for j in [("dotnet", "committed", "2", "after-other-model"), ("python", "extended", "3", "fresh"), ("testdata", "small", "random", "after-other-model")]:
+        if j in res and res[j][0] is not None:
+            chk.sample({"plugin": j[0], "models": j[1], "seed": j[2], "history": j[3], "files": len(res[j][0]),
+                        "tree_digest": hashlib.sha1(json.dumps(res[j][0], sort_keys=True).encode()).hexdigest()[:12]})
     chk.extra["traces_validated_against_impl"] = ntrees
+    seeds = sorted({j[2] for j in jobs})
 
     how = "./check C16 --replay <this file>"
     if bad:
         b = bad[0]
-        chk.violation({"property": "C16", "kind": "history", "input": {"plugin": b["plugin"], "seed": b["seed"], "history": b["history"]},
+        chk.violation({"property": "C16", "kind": "history", "input": {"plugin": b["plugin"], "models": b["models"], "seed": b["seed"], "history": b["history"]},
                        "expected": "byte-identical output tree for every hash seed and run history", "observed_impl": b,
-                       "all_differing": [(x["plugin"], x["seed"], x["history"]) for x in bad][:20], "broken": [x[:2] for x in broken], "how_to_replay": how})
+                       "all_differing": [(x["plugin"], x["models"], x["seed"], x["history"]) for x in bad][:20], "broken": [x[:2] for x in broken], "how_to_replay": how})
     elif broken:
         chk.violation({"property": "C16", "kind": "obligation no longer checks", "broken": [{"what": a, "name": b, "detail": c} for a, b, c in broken],
                        "searched": "%d real plugin runs over seeds %s and histories %s: all output trees byte-identical" % (ntrees, seeds, HISTS)},
@@ -224,7 +268,8 @@ def replay(path):
     if not inp:
         print("no concrete input recorded:", json.dumps(r.get("broken"))[:2000])
         return 1
-    res = run_stream([inp["plugin"]], sorted({"1", inp["seed"]}), sorted({"fresh", inp["history"]}), workers=4)
+    m = inp.get("models", "committed")
+    res = run_stream(sorted({(inp["plugin"], m, "1", "fresh"), (inp["plugin"], m, inp["seed"], inp["history"])}), workers=2)
     bad = judge(res)
     if bad:
         print("still fails:", json.dumps(bad[0])[:1500])
